@@ -310,21 +310,37 @@ func (m *machine) request(o op, suffix string) (res result) {
 	p, stack := vlib.Try(func() {
 		if o.Kind == oRequest {
 			var r *network.ResponseWithError
-			switch o.Verb {
-			case http.MethodGet:
-				r = m.sh.Get(rawURL)
-			case http.MethodHead:
-				r = m.sh.Head(rawURL)
-			case http.MethodOptions:
-				r = m.sh.Options(rawURL)
-			case http.MethodDelete:
-				r = m.sh.Delete(rawURL)
-			case http.MethodPost:
-				r = m.sh.Post(rawURL, "application/json", strings.NewReader(`{"a":1}`))
-			case http.MethodPut:
-				r = m.sh.Put(rawURL, "application/json", strings.NewReader(`{"a":2}`))
-			case http.MethodPatch:
-				r = m.sh.Patch(rawURL, "text/plain", strings.NewReader(`x`))
+			// a third of the direct requests go through the lower-level entry points
+			switch {
+			case m.reqNo%3 == 1:
+				req, _ := http.NewRequest(o.Verb, rawURL, nil)
+				r = m.sh.DoRequest(req)
+			case m.reqNo%3 == 2 && (o.Verb == http.MethodPost || o.Verb == http.MethodPut || o.Verb == http.MethodPatch):
+				ctx, cancel := m.sh.GetContextTimeout()
+				r = m.sh.DoNewRequestWithBodyOptions(ctx, http.Header{"X-Own": {"1"}}, o.Verb, rawURL, strings.NewReader(`{"a":3}`), "application/json")
+				cancel()
+			case m.reqNo%3 == 2:
+				ctx, cancel := m.sh.GetContextTimeout()
+				r = m.sh.DoNewRequest(ctx, http.Header{"X-Own": {"1"}}, o.Verb, rawURL)
+				cancel()
+			}
+			if r == nil {
+				switch o.Verb {
+				case http.MethodGet:
+					r = m.sh.Get(rawURL)
+				case http.MethodHead:
+					r = m.sh.Head(rawURL)
+				case http.MethodOptions:
+					r = m.sh.Options(rawURL)
+				case http.MethodDelete:
+					r = m.sh.Delete(rawURL)
+				case http.MethodPost:
+					r = m.sh.Post(rawURL, "application/json", strings.NewReader(`{"a":1}`))
+				case http.MethodPut:
+					r = m.sh.Put(rawURL, "application/json", strings.NewReader(`{"a":2}`))
+				case http.MethodPatch:
+					r = m.sh.Patch(rawURL, "text/plain", strings.NewReader(`x`))
+				}
 			}
 			if r == nil {
 				err = errors.New("nil *ResponseWithError")
@@ -649,7 +665,7 @@ func TestHistories(t *testing.T) {
 	if vlib.Replaying() && vlib.ReplayCase("C18/history") != nil {
 		t.Skip()
 	}
-	vlib.Check(t, "histories", 6000, 40000, propMachine(false))
+	vlib.Check(t, "histories", 6000, 150000, propMachine(false))
 }
 
 // Two SimpleHTTP instances wrapped around one client (DESIGN C18 B): thorough only.
